@@ -883,6 +883,9 @@ fn context_sources() -> Vec<String> {
     let exprs = [
         "a", "(a, b)", "(a, b, c)", "a = b", "a = (b, c)", "(a = b, c)", "a ? b : c", "a ? (b, c) : d", "(a ? b : c) ? d : e", "a + b", "a < b", "a > b", "a >> b", "a >= b", "a || b", "a | b", "a & b", "-a", "!a", "a++", "(T)a", "(T)(a, b)",
         "f(a, b)", "f((a, b), c)", "a[b]", "a[(b, c)]", "a.b", "sizeof(a)", "sizeof(T)", "g<T>(a)", "1", "1.5", "true",
+        // expressions that are token for token also declarations: written in parentheses they are expressions, and the
+        // printed form (without the redundant parentheses) has to read back as the same expression
+        "(a * b)", "(a & b)", "(a * b = c)", "(a & b = c)", "(a<b> c)", "(a * b, c)", "a * b", "a & b", "a * b = c",
     ];
     let contexts = [
         "void f() { int x = %; }",
